@@ -729,6 +729,11 @@ class Gen(object):
                 else:
                     items.append(['h', '%X' % r.randrange(1 << nw)])
             spec = [r.choice(['l', 'l', 't']), items]
+            if kind == 'b' and r.random() < 0.35:
+                # the same binary literals as a NumPy array (dtype object or str), with or without the prefix
+                sh = [n] if n < 4 or r.random() < 0.5 else [2, 2]
+                return {'op': 'cont_new', 'spec': ['sa', r.choice(['O', 'O', 'U']), sh, [it[1] for it in items],
+                                                   r.random() < 0.5]}
             q = r.random()
             if q < 0.2:
                 spec = ['l', [spec, spec]]
@@ -800,6 +805,21 @@ class Gen(object):
         if k is None:
             return self.g_new()
         return {'op': 'export', 'slot': k, 'how': self.rng.choice(['array', 'array', 'array_copy', 'asarray_copy'])}
+
+    def g_frombin_cont(self):
+        r = self.rng
+        if not self.w.containers:
+            return self.g_cont_new()
+        fmt = self.fmt()
+        op = {'op': 'frombin_cont', 'c': r.randrange(len(self.w.containers)),
+              'fmt': [fmt[0], max(fmt[1], 12), min(fmt[2], 8)], 'via': r.choice(['fn', 'fn', 'method'])}
+        if op['via'] == 'method':
+            k, _ = self.pick(self.is_real)
+            if k is None:
+                op['via'] = 'fn'
+            else:
+                op['slot'] = k
+        return op
 
     def g_cont_mutate(self):
         if not self.w.containers:
@@ -1144,7 +1164,16 @@ class Gen(object):
             spec = ['l', [['i', code()] for _ in range(sh[0])]]
         else:
             spec = ['i', code()]
-        return {'op': 'set_raw', 'slot': self.cands().index(i), 'val': spec}
+        op = {'op': 'set_raw', 'slot': self.cands().index(i), 'val': spec}
+        if r.random() < 0.12 and o.n_word <= 40:
+            # a raw value computed in floating point (x.val * 0.5): not a whole number of codes
+            c = r.randint(lo, hi) + Fraction(r.choice([1, 3, 5, 7]), 8)
+            op['val'] = self.scalar_spec(c, allow_str=False) if not sh or r.random() < 0.5 else \
+                ['a', 'float64', [int(np.prod(sh))], [list(V.frac_to_pair(c + j)) for j in range(int(np.prod(sh)))]] \
+                if len(sh) == 1 else self.scalar_spec(c, allow_str=False)
+        if r.random() < 0.15:
+            op['vdtype'] = r.choice(['int', 'float', 'int64', 'float64'])
+        return op
 
     def g_setitem(self, kind=None):
         r = self.rng
@@ -1549,6 +1578,8 @@ class Gen(object):
             add(2, self.g_cont_new, 'containers')
             add(1, self.g_cfg_new, 'containers')
             add(1, self.g_export, 'containers')
+            if 'strings' in G:
+                add(1, self.g_frombin_cont, 'containers')
             add(2, self.g_new_cfg, 'containers')
             if 'F6' in F:
                 add(1, self.g_cfg_mutate, 'containers')
